@@ -218,9 +218,11 @@ def oracle(case):
         demand = None      # (what, rt, previous rt) when NotUniqueError is demanded
         line = None
         rename_check = None
+        target_id = None   # identifier this call tries to give to a line
         if op == "add" and H.well_formed(step[1], v):
             f = H.split_rec(step[1])
             n = H.rec_id(f, v)
+            target_id = n
             if n is not None and n in ids and not any(virt for _, virt in ids[n]):
                 prt = ids[n][0][0]
                 merge = f[0] in "OU" and prt == f[0]
@@ -234,18 +236,21 @@ def oracle(case):
                 line = r[1] if r[0] == "ok" else None
             if op == "rename" and line is not None and not line.virtual:
                 new = step[2]
+                target_id = new
                 old = H.written_id(str(line), v)
                 lrt = line.record_type
                 if new in ids and new != old and not any(virt for _, virt in ids[new]):
                     prt = ids[new][0][0]
                     if not (lrt in "OU" and prt == lrt):
                         demand = ("rename", lrt, prt)
-                elif new not in ids and new != "*" and old is not None and H.well_formed(H.join_rec(["S", new, "*"]), "gfa1"):
+                elif new not in ids and new != "*" and old is not None and len(ids.get(old, [])) == 1 and H.well_formed(H.join_rec(["S", new, "*"]), "gfa1"):
                     mentioned = set()
                     for t in pre:
                         mentioned.update(H.mentions(H.split_rec(t), v))
                     if new not in mentioned:
                         rename_check = (old, new)
+        if target_id is not None and target_id in ids and any(virt for _, virt in ids[target_id]):
+            return []  # identifier of a placeholder (only mentioned so far): not pinned down, see NOT CHECKED
         r = H.apply_step(g, step, line)
         if r[0] == "skip":
             continue
